@@ -106,7 +106,7 @@ Proof.
   - inversion H; subst. reflexivity.
   - destruct (r x) as [x'|] eqn:Ex; [|discriminate].
     destruct (omap_list r t) as [t'|] eqn:Et; [|discriminate].
-    inversion H; subst l'. simpl. rewrite (Hx _ Ex), (IH _ eq_refl). reflexivity.
+    inversion H; subst l'. simpl. rewrite (Hx _ eq_refl), (IH _ eq_refl). reflexivity.
 Qed.
 
 Lemma option_map_Some {A B} (f : A -> B) o b :
